@@ -5,13 +5,51 @@ package control
 import (
 	"fmt"
 	"io"
+	"os"
+	"path/filepath"
+	"sync"
 
 	"github.com/daeuniverse/dae/common/assets"
 	"github.com/daeuniverse/dae/component/routing"
 	"github.com/daeuniverse/dae/config"
 	"github.com/daeuniverse/dae/pkg/config_parser"
+	"github.com/daeuniverse/dae/pkg/geodata"
+	"google.golang.org/protobuf/proto"
 	"github.com/sirupsen/logrus"
 )
+
+// verifGeoDir holds the geodata file the model's geosite values refer to (spec/RuleScan.tla GeoSite):
+//   SHOP  = suffix a.b ; full ba.b @ads ; keyword "x." @ads        OTHER = suffix b
+var (
+	verifGeoOnce sync.Once
+	verifGeoPath string
+)
+
+func verifGeoDir() string {
+	verifGeoOnce.Do(func() {
+		dir, err := os.MkdirTemp("", "verif-geo-")
+		if err != nil {
+			panic(err)
+		}
+		ads := []*geodata.Domain_Attribute{{Key: "ads", TypedValue: &geodata.Domain_Attribute_BoolValue{BoolValue: true}}}
+		data, err := proto.Marshal(&geodata.GeoSiteList{Entry: []*geodata.GeoSite{
+			{CountryCode: "OTHER", Domain: []*geodata.Domain{{Type: geodata.Domain_RootDomain, Value: "b"}}},
+			{CountryCode: "SHOP", Domain: []*geodata.Domain{
+				{Type: geodata.Domain_RootDomain, Value: "a.b"},
+				{Type: geodata.Domain_Full, Value: "ba.b", Attribute: ads},
+				{Type: geodata.Domain_Plain, Value: "x.", Attribute: ads},
+			}},
+		}})
+		if err != nil {
+			panic(err)
+		}
+		if err := os.WriteFile(filepath.Join(dir, "geosite.dat"), data, 0o644); err != nil {
+			panic(err)
+		}
+		verifGeoPath = dir
+	})
+	return verifGeoPath
+}
 
 func verifLogger() *logrus.Logger {
 	l := logrus.New()
@@ -43,7 +81,7 @@ func verifCompileRouting(text string, outboundName2Id map[string]uint8, bpf *bpf
 	if optimize {
 		opts = []routing.RulesOptimizer{
 			&routing.AliasOptimizer{},
-			&routing.DatReaderOptimizer{Logger: log, LocationFinder: assets.NewLocationFinder(nil)},
+			&routing.DatReaderOptimizer{Logger: log, LocationFinder: assets.NewLocationFinder([]string{verifGeoDir()})},
 			&routing.MergeAndSortRulesOptimizer{},
 			&routing.DeduplicateParamsOptimizer{},
 		}
